@@ -62,6 +62,15 @@ def run(scn, stats):
             raise Violation("lost-execution", {"due": flow.due_view(), "definition": defn, "history": common.history_summary(r)})
         if status == "succeeded" and flow.open:
             raise Violation("succeeded-with-open-execution", {"open": [list(k) for k in flow.open], "definition": defn})
+        if status == "failed" and flow.fail_cmds == 1 and not flow.unhandled and not flow.runtime_error and r.at_rest():
+            # the tasks listed beside the fail command are the documented clean-up tasks: their transitions were
+            # satisfied and the workflow failed for no other reason, so each of them runs
+            ran = {t for t, rt_, i in r.d.dispatched}
+            lost = sorted(tg for tg in flow.cleanup_ok if scn["ir"]["tasks"][tg].get("join") is None and tg not in ran)
+            if lost:
+                raise Violation("clean-up-task-beside-fail-command-never-ran", {"tasks": lost, "definition": defn, "history": common.history_summary(r)})
+            if flow.cleanup_ok:
+                stats.label("clean-up-beside-fail-ran")
     labels = []
     if state["ooo"]:
         labels.append("out-of-order-completion")
@@ -85,7 +94,7 @@ class _R(object):
         self.d = d
 
 
-CFG = gen.cfg(p_loop=0.3)
+CFG = gen.cfg(p_loop=0.3, name_mix=True)
 
 
 def strategy(tier):
